@@ -27,11 +27,12 @@ func main() {
 	prop := flag.String("property", "", "select contracts tagged with this property")
 	flag.Var(&funcs, "func", "verify only this function (pkg.Name); repeatable")
 	timeout := flag.Int("timeout", 10, "per-solver timeout in seconds")
-	par := flag.Int("par", 6, "obligations in flight")
+	par := flag.Int("par", 5, "obligations in flight")
 	out := flag.String("out", "", "directory for SMT scripts (default: temp)")
 	jsonOut := flag.String("json", "", "write results as JSON")
 	verbose := flag.Bool("v", false, "verbose")
 	list := flag.Bool("list", false, "list contracts and exit")
+	only := flag.String("only", "", "discharge only obligations whose name contains this substring")
 	flag.Parse()
 
 	t0 := time.Now()
@@ -86,8 +87,19 @@ func main() {
 			nerr++
 		}
 	}
+	if *only != "" {
+		for _, u := range units {
+			var keep []*Oblig
+			for _, o := range u.obligs {
+				if strings.Contains(o.name, *only) {
+					keep = append(keep, o)
+				}
+			}
+			u.obligs = keep
+		}
+	}
 	tgen := time.Since(t0)
-	dischargeAll(units, dir, *timeout, *par, solvers)
+	dischargeAll(units, dir, *timeout, *par, solvers[:3])
 	res := summary{WallS: time.Since(t0).Seconds(), GenS: tgen.Seconds()}
 	for _, u := range units {
 		ur := unitResult{Name: u.name, Theory: u.m.mode.String(), Havocs: u.havocs, Callees: u.calleesUsed}
